@@ -61,3 +61,23 @@ Example C05_nonvacuous :
   let st := fst (fst (run (step 2) init acts)) in
   th st 2%nat = Q6 0 /\ g_in st = [7] /\ g_out st = [7].
 Proof. vm_compute. repeat split; reflexivity. Qed.
+
+(** nikolaev_bounded_queue uses the same SCQ index arithmetic (GENERATED from xenium/detail/nikolaev_scq.hpp) *)
+From XV Require Import gen.ScqGen Proof.ScqIndex.
+Local Open Scope N_scope.
+
+Theorem C05_scq_remap_in_range : forall m idx shift, 1 <= m <= 41 -> idx < 2 ^ 64 ->
+  remap_index idx shift (2 ^ m) < 2 ^ m.
+Proof. exact remap_index_range. Qed.
+Print Assumptions C05_scq_remap_in_range.
+
+Theorem C05_scq_remap_bijective : forall m, 1 <= m <= 41 ->
+  let n := 2 ^ m in
+  let shift := if m <=? 3 then 0 else m - 3 in
+  shift = calc_remap_shift (n / 2) /\
+  (forall p1 p2, p1 < n -> p2 < n ->
+     remap_index (2 * p1) shift n = remap_index (2 * p2) shift n -> p1 = p2) /\
+  (forall y, y < n -> exists p, p < n /\ remap_index (2 * p) shift n = y) /\
+  (forall idx, remap_index idx shift n = remap_index (2 * ((idx / 2) mod n)) shift n).
+Proof. exact remap_index_bijective. Qed.
+Print Assumptions C05_scq_remap_bijective.
